@@ -1,5 +1,6 @@
 import KojenVerif.Lemmas.Uml
 import KojenVerif.Lemmas.UmlInc
+import KojenVerif.Model.UmlTypes
 /-
   C19 — UML class generation is complete, namespace-faithful and self-consistent.
 
@@ -138,6 +139,23 @@ theorem C19_includes_namespace_faithful (hns tns : List Str) (name : Str)
       (if inOwn hns tns name then joinDirs hns else []) ++
         (incEntry (joinNs hns) (joinNs (tns ++ [name]))).1 ++ (incEntry (joinNs hns) (joinNs (tns ++ [name]))).2 ++ S ".h" :=
   include_is_placement hns tns name hh ht hn
+
+/-- **Declared before use.**  Every non-primitive type a class mentions — as a base, in an attribute, a parameter
+    or a return value, through a composition, an aggregation or an association — is either among the types its header
+    includes or among those it forward declares (`Model/UmlTypes`, the set logic of
+    `GetNotForwardDeclarable… / GetForwardDeclarableNonPrimitiveTypesLinkedToThis`, compared with the real functions on
+    every class of every generated diagram), whatever `IsTypePrimitive`, `IsTypePointerOrRef` and the enumeration test answer. -/
+theorem C19_declared_before_use (prim ptr enum : Str → Bool) (c : UmlTypes.Cls) (t : Str)
+    (ht : t ∈ UmlTypes.mentioned c) (hp : prim t = false) :
+    t ∈ UmlTypes.notFwd prim ptr enum c ∨ t ∈ UmlTypes.fwd prim ptr enum c :=
+  UmlTypes.declared_before_use prim ptr enum c t ht hp
+
+/-- a forward declared type is never an enumeration reached through an attribute / parameter / return value
+    (fix 14b3b42): those are included -/
+theorem C19_enum_never_forward_declared (prim ptr enum : Str → Bool) (c : UmlTypes.Cls) (t : Str)
+    (h : t ∈ UmlTypes.fwd prim ptr enum c) :
+    (∃ u ∈ c.uses, u.type = t ∧ enum t = false ∧ ptr u.modifier = true) ∨ t ∈ c.pointers :=
+  UmlTypes.fwd_not_enum_by_use prim ptr enum c t h
 
 /-! non-vacuity: the shipped diagram's shape -/
 section Example
